@@ -1,8 +1,437 @@
 (* C09 — coefficient-domain ring operations match Z[X]/(X^N+1) exactly.
-   Pinned statements only. *)
-From PV Require Import Base.MachineInt Model.Znx Model.Limbs Model.Ring Model.Poly Proofs.C09Ring.
+   Pinned statements only.  Model = Model/Ring.v (code-shaped), Spec = Model/Poly.v (index-wise). *)
+From PV Require Import Base.MachineInt Model.Znx Model.Limbs Model.Ring Model.Poly Model.C09Galois
+  Proofs.C09Lists Proofs.C09Ring Proofs.C09Sigma Proofs.C09Galois Proofs.C09Inverse Proofs.C09Switch Proofs.C09Size.
 Open Scope Z_scope.
 
 Theorem C09_rotate_length : forall w p (a : list Z), length (znx_rotate w p a) = length a.
 Proof. exact rotate_length. Qed.
 Print Assumptions C09_rotate_length.
+
+(* ---------- 1. rotate = multiplication by X^p (all n, all p in Z, all words) ---------- *)
+Theorem C09_rotate_is_monomial_mul : forall (w p : Z) (a : list Z),
+  znx_rotate w p a = monomial_mul w p a.
+Proof. exact rotate_is_monomial_mul. Qed.
+Print Assumptions C09_rotate_is_monomial_mul.
+
+Example C09_ex_rotate :
+  znx_rotate 64 (-21) [1; -2; 3; - 2 ^ 63; 5; 6; 2 ^ 63 - 1; 8]
+  = [6; 2 ^ 63 - 1; 8; -1; 2; -3; - 2 ^ 63; -5].
+Proof. vm_compute. reflexivity. Qed.
+
+(* ---------- 2. Z/2n acts ---------- *)
+Theorem C09_monomial_mul_compose : forall (w p q : Z) (a : list Z),
+  1 <= w -> Forall (in_range w) a ->
+  monomial_mul w p (monomial_mul w q a) = monomial_mul w (p + q) a.
+Proof. exact monomial_mul_compose. Qed.
+Print Assumptions C09_monomial_mul_compose.
+
+Theorem C09_monomial_mul_0 : forall (w : Z) (a : list Z), monomial_mul w 0 a = a.
+Proof. exact monomial_mul_0. Qed.
+Print Assumptions C09_monomial_mul_0.
+
+Theorem C09_monomial_mul_2n_id : forall (w : Z) (a : list Z),
+  monomial_mul w (2 * Z.of_nat (length a)) a = a.
+Proof. exact monomial_mul_2n_id. Qed.
+Print Assumptions C09_monomial_mul_2n_id.
+
+Theorem C09_rotate_compose : forall (w p q : Z) (a : list Z),
+  1 <= w -> Forall (in_range w) a ->
+  znx_rotate w p (znx_rotate w q a) = znx_rotate w (p + q) a.
+Proof. exact rotate_compose. Qed.
+Print Assumptions C09_rotate_compose.
+
+Theorem C09_rotate_inverse : forall (w p : Z) (a : list Z),
+  1 <= w -> Forall (in_range w) a ->
+  znx_rotate w (- p) (znx_rotate w p a) = a.
+Proof. exact rotate_inverse. Qed.
+Print Assumptions C09_rotate_inverse.
+
+Theorem C09_rotate_n_neg : forall (w : Z) (a : list Z),
+  znx_rotate w (Z.of_nat (length a)) a = map (wneg w) a.
+Proof. exact rotate_n_neg. Qed.
+Print Assumptions C09_rotate_n_neg.
+
+Theorem C09_rotate_2n_id : forall (w : Z) (a : list Z),
+  znx_rotate w (2 * Z.of_nat (length a)) a = a.
+Proof. exact rotate_2n_id. Qed.
+Print Assumptions C09_rotate_2n_id.
+
+Theorem C09_rotate_mod_2n : forall (w p : Z) (a : list Z),
+  znx_rotate w (p mod (2 * Z.of_nat (length a))) a = znx_rotate w p a.
+Proof. exact rotate_mod_2n. Qed.
+Print Assumptions C09_rotate_mod_2n.
+
+Example C09_ex_rotate_inverse :
+  znx_rotate 64 (- 1000003) (znx_rotate 64 1000003 [1; -2; 3; - 2 ^ 63; 5; 6]) = [1; -2; 3; - 2 ^ 63; 5; 6].
+Proof. apply (C09_rotate_inverse 64 1000003); [lia | apply Forall_in_rangeb; vm_compute; reflexivity]. Qed.
+
+(* the range hypothesis is needed: a word outside the w-bit range is not recovered (it is wrapped) *)
+Example C09_ex_rotate_inverse_needs_range :
+  znx_rotate 64 (-1) (znx_rotate 64 1 [0; 2 ^ 63]) <> [0; 2 ^ 63].
+Proof. vm_compute. discriminate. Qed.
+
+(* ---------- 3. the automorphism loop is sigma_g; every position written exactly once ---------- *)
+Theorem C09_automorphism_is_sigma : forall (w g m : Z) (r0 a : list Z),
+  0 <= m -> Z.of_nat (length a) = 2 ^ m -> Z.odd g = true -> length r0 = length a ->
+  znx_automorphism_onto w g r0 a = sigma w g a.
+Proof. exact automorphism_is_sigma. Qed.
+Print Assumptions C09_automorphism_is_sigma.
+
+(* more generally for any n >= 0 and g coprime to n *)
+Theorem C09_automorphism_is_sigma_gcd : forall (w g : Z) (a r0 : list Z),
+  Z.gcd g (Z.of_nat (length a)) = 1 -> length r0 = length a ->
+  znx_automorphism_onto w g r0 a = sigma w g a.
+Proof. exact automorphism_is_sigma_gcd. Qed.
+Print Assumptions C09_automorphism_is_sigma_gcd.
+
+Theorem C09_sigma_characterisation : forall (w g m : Z) (a : list Z) (j : nat),
+  1 <= w -> 0 <= m -> Z.of_nat (length a) = 2 ^ m -> Z.odd g = true ->
+  Forall (in_range w) a -> (j < length a)%nat ->
+  ext w (sigma w g a) (Z.of_nat j * g) = nthZ a j.
+Proof. exact sigma_characterisation. Qed.
+Print Assumptions C09_sigma_characterisation.
+
+(* sigma_g(a)(X^g) = a(X) on every exponent *)
+Theorem C09_ext_sigma : forall (w g : Z) (a : list Z) (k : Z),
+  1 <= w -> Z.gcd g (2 * Z.of_nat (length a)) = 1 -> Forall (in_range w) a -> (0 < length a)%nat ->
+  ext w (sigma w g a) (k * g) = ext w a k.
+Proof. exact ext_sigma. Qed.
+Print Assumptions C09_ext_sigma.
+
+Example C09_ex_automorphism :
+  znx_automorphism_onto 64 (-3) [91; 92; 93; 94; 95; 96; 97; 98] [1; 2; 3; 4; 5; 6; 7; - 2 ^ 63]
+  = sigma 64 (-3) [1; 2; 3; 4; 5; 6; 7; - 2 ^ 63].
+Proof. apply (C09_automorphism_is_sigma 64 (-3) 3); reflexivity || lia. Qed.
+
+(* for even g the loop does not write every position: prior content shows through *)
+Example C09_ex_automorphism_even_depends_on_r0 :
+  znx_automorphism_onto 64 2 [91; 92; 93; 94] [1; 2; 3; 4] <> znx_automorphism_onto 64 2 [0; 0; 0; 0] [1; 2; 3; 4].
+Proof. vm_compute. discriminate. Qed.
+
+(* ---------- 4. the Galois group acts ---------- *)
+Theorem C09_sigma_compose : forall (w g h m : Z) (a : list Z),
+  1 <= w -> 0 <= m -> Z.of_nat (length a) = 2 ^ m -> Z.odd g = true -> Z.odd h = true ->
+  Forall (in_range w) a ->
+  sigma w g (sigma w h a) = sigma w (g * h) a.
+Proof. exact sigma_compose. Qed.
+Print Assumptions C09_sigma_compose.
+
+Theorem C09_sigma_compose_gcd : forall (w g h : Z) (a : list Z),
+  1 <= w -> Z.gcd g (2 * Z.of_nat (length a)) = 1 -> Z.gcd h (2 * Z.of_nat (length a)) = 1 ->
+  Forall (in_range w) a ->
+  sigma w g (sigma w h a) = sigma w (g * h) a.
+Proof. exact sigma_compose_gcd. Qed.
+Print Assumptions C09_sigma_compose_gcd.
+
+Theorem C09_sigma_1 : forall (w : Z) (a : list Z), sigma w 1 a = a.
+Proof. exact sigma_1. Qed.
+Print Assumptions C09_sigma_1.
+
+Theorem C09_sigma_mod : forall (w g : Z) (a : list Z),
+  sigma w (g mod (2 * Z.of_nat (length a))) a = sigma w g a.
+Proof. exact sigma_mod. Qed.
+Print Assumptions C09_sigma_mod.
+
+Theorem C09_sigma_inverse : forall (w g h m : Z) (a : list Z),
+  1 <= w -> 0 <= m -> Z.of_nat (length a) = 2 ^ m -> Z.odd g = true ->
+  (g * h) mod (2 * 2 ^ m) = 1 -> Forall (in_range w) a ->
+  sigma w h (sigma w g a) = a.
+Proof. exact sigma_inverse. Qed.
+Print Assumptions C09_sigma_inverse.
+
+Theorem C09_automorphism_compose : forall (w g h m : Z) (r0 r1 r2 a : list Z),
+  1 <= w -> 0 <= m -> Z.of_nat (length a) = 2 ^ m -> Z.odd g = true -> Z.odd h = true ->
+  Forall (in_range w) a -> length r0 = length a -> length r1 = length a -> length r2 = length a ->
+  znx_automorphism_onto w g r1 (znx_automorphism_onto w h r0 a) = znx_automorphism_onto w (g * h) r2 a.
+Proof. exact automorphism_compose. Qed.
+Print Assumptions C09_automorphism_compose.
+
+Example C09_ex_sigma_compose :
+  sigma 64 (-5) (sigma 64 27 [1; 2; 3; 4; 5; 6; 7; - 2 ^ 63]) = sigma 64 (-135) [1; 2; 3; 4; 5; 6; 7; - 2 ^ 63].
+Proof.
+  apply (C09_sigma_compose 64 (-5) 27 3); try reflexivity; try lia.
+  apply Forall_in_rangeb; vm_compute; reflexivity.
+Qed.
+
+(* ---------- 5. Galois-element arithmetic (u64 wrap-around explicit) ---------- *)
+Theorem C09_mod_exp_u64_spec : forall x e : Z, 0 <= e < 2 ^ 64 -> mod_exp_u64 x e = x ^ e mod 2 ^ 64.
+Proof. exact mod_exp_u64_spec. Qed.
+Print Assumptions C09_mod_exp_u64_spec.
+
+Theorem C09_galois_inv_correct : forall g m : Z,
+  0 <= m <= 62 -> Z.odd g = true ->
+  (g * galois_element_inv g (2 * 2 ^ m)) mod (2 * 2 ^ m) = 1.
+Proof. exact galois_inv_correct. Qed.
+Print Assumptions C09_galois_inv_correct.
+
+Theorem C09_galois_element_value : forall k c : Z,
+  1 <= c <= 63 -> k <> 0 -> Z.abs k < 2 ^ 64 ->
+  galois_element k (2 ^ c) = (5 ^ Z.abs k mod 2 ^ c) * Z.sgn k.
+Proof. exact galois_element_value. Qed.
+Print Assumptions C09_galois_element_value.
+
+Theorem C09_galois_element_odd : forall k c : Z,
+  1 <= c <= 63 -> Z.abs k < 2 ^ 64 -> Z.odd (galois_element k (2 ^ c)) = true.
+Proof. exact galois_element_odd. Qed.
+Print Assumptions C09_galois_element_odd.
+
+(* the signed-generator convention is a sign flip (multiplication by the unit -1), as documented ... *)
+Theorem C09_galois_element_neg : forall k c : Z,
+  1 <= c <= 63 -> k <> 0 -> Z.abs k < 2 ^ 64 ->
+  galois_element (- k) (2 ^ c) = - galois_element k (2 ^ c).
+Proof. exact galois_element_neg. Qed.
+Print Assumptions C09_galois_element_neg.
+
+(* ... and NOT the inverse in (Z/2N)^*: k = 1, 2N = 16: 5 * (-5) = 7 mod 16 *)
+Definition galois_element_neg_is_inverse_full : Prop :=
+  forall k c, 1 <= c <= 63 -> Z.abs k < 2 ^ 63 ->
+  (galois_element k (2 ^ c) * galois_element (- k) (2 ^ c)) mod 2 ^ c = 1.
+Theorem C09_galois_element_neg_is_inverse_refuted :
+  exists k co, co = 16 /\ (galois_element k co * galois_element (- k) co) mod co <> 1.
+Proof. exact galois_element_neg_is_inverse_refuted. Qed.
+Print Assumptions C09_galois_element_neg_is_inverse_refuted.
+
+Theorem C09_sigma_galois_inverse : forall (w g m : Z) (a : list Z),
+  1 <= w -> 0 <= m <= 62 -> Z.of_nat (length a) = 2 ^ m -> Z.odd g = true ->
+  Forall (in_range w) a ->
+  sigma w (galois_element_inv g (2 * 2 ^ m)) (sigma w g a) = a.
+Proof. exact sigma_galois_inverse. Qed.
+Print Assumptions C09_sigma_galois_inverse.
+
+Theorem C09_automorphism_inverse : forall (w g m : Z) (r0 r1 a : list Z),
+  1 <= w -> 0 <= m <= 62 -> Z.of_nat (length a) = 2 ^ m -> Z.odd g = true ->
+  Forall (in_range w) a -> length r0 = length a -> length r1 = length a ->
+  znx_automorphism_onto w (galois_element_inv g (2 * 2 ^ m)) r1 (znx_automorphism_onto w g r0 a) = a.
+Proof. exact automorphism_inverse. Qed.
+Print Assumptions C09_automorphism_inverse.
+
+Example C09_ex_galois :
+  (galois_element_inv 5 16, galois_element_inv (-5) 16, galois_element 3 16, galois_element (-3) 16,
+   (12345 * galois_element_inv 12345 8192) mod 8192, (- (2 ^ 63) + 1) * galois_element_inv (- (2 ^ 63) + 1) (2 ^ 63) mod 2 ^ 63)
+  = (13, -13, 13, -13, 1, 1).
+Proof. vm_compute. reflexivity. Qed.
+
+Example C09_ex_automorphism_inverse :
+  znx_automorphism_onto 64 (galois_element_inv (-3) 16) [7; 7; 7; 7; 7; 7; 7; 7]
+    (znx_automorphism_onto 64 (-3) [9; 9; 9; 9; 9; 9; 9; 9] [1; 2; 3; 4; 5; 6; 7; - 2 ^ 63])
+  = [1; 2; 3; 4; 5; 6; 7; - 2 ^ 63].
+Proof.
+  apply (C09_automorphism_inverse 64 (-3) 3); try reflexivity; try lia.
+  apply Forall_in_rangeb; vm_compute; reflexivity.
+Qed.
+
+(* ---------- 6. ring-degree switching ---------- *)
+Theorem C09_switch_ring_same : forall (n_out : nat) (r0 a : list Z),
+  length a = n_out -> znx_switch_ring n_out r0 a = a.
+Proof. exact switch_ring_same. Qed.
+Print Assumptions C09_switch_ring_same.
+
+Theorem C09_switch_ring_subsample : forall (n_out : nat) (r0 a : list Z),
+  (n_out < length a)%nat -> znx_switch_ring n_out r0 a = subsample n_out a.
+Proof. exact switch_ring_subsample. Qed.
+Print Assumptions C09_switch_ring_subsample.
+
+Theorem C09_switch_ring_embed : forall (n_out : nat) (r0 a : list Z),
+  (length a < n_out)%nat -> znx_switch_ring n_out r0 a = embed n_out a.
+Proof. exact switch_ring_embed. Qed.
+Print Assumptions C09_switch_ring_embed.
+
+Theorem C09_switch_ring_indep : forall (n_out : nat) (r0 r1 a : list Z),
+  znx_switch_ring n_out r0 a = znx_switch_ring n_out r1 a.
+Proof. exact switch_ring_indep. Qed.
+Print Assumptions C09_switch_ring_indep.
+
+Theorem C09_subsample_embed : forall (c : nat) (a : list Z),
+  (0 < c)%nat -> (0 < length a)%nat -> subsample (length a) (embed (c * length a) a) = a.
+Proof. exact subsample_embed. Qed.
+Print Assumptions C09_subsample_embed.
+
+Theorem C09_subsample_embed_divide : forall (n : nat) (a : list Z),
+  (0 < n)%nat -> (0 < length a)%nat -> Nat.divide (length a) n ->
+  subsample (length a) (embed n a) = a.
+Proof. exact subsample_embed_divide. Qed.
+Print Assumptions C09_subsample_embed_divide.
+
+Theorem C09_switch_ring_roundtrip : forall (c : nat) (r0 r1 a : list Z),
+  (0 < c)%nat -> (0 < length a)%nat ->
+  znx_switch_ring (length a) r1 (znx_switch_ring (c * length a) r0 a) = a.
+Proof. exact switch_ring_roundtrip. Qed.
+Print Assumptions C09_switch_ring_roundtrip.
+
+(* embed is the ring map X -> X^c *)
+Theorem C09_ext_embed : forall (w : Z) (c : nat) (a : list Z) (k : Z),
+  (0 < c)%nat -> (0 < length a)%nat ->
+  ext w (embed (c * length a) a) (k * Z.of_nat c) = ext w a k.
+Proof. exact ext_embed. Qed.
+Print Assumptions C09_ext_embed.
+
+Example C09_ex_switch :
+  (znx_switch_ring 6 [9; 9; 9; 9; 9; 9] [1; -2; 3], znx_switch_ring 2 [9; 9] [1; -2; 3; 4; 5; 6])
+  = ([1; 0; -2; 0; 3; 0], [1; 4]).
+Proof. vm_compute. reflexivity. Qed.
+
+(* ---------- 7. split / merge ---------- *)
+Theorem C09_merge_is_interleave : forall (n : nat) (parts : list limbs) (r0 : limbs),
+  vec_merge_rings n parts r0
+  = build (length r0) (fun j => interleave n (map (fun p => lnth p j) parts)).
+Proof. exact merge_is_interleave. Qed.
+Print Assumptions C09_merge_is_interleave.
+
+Theorem C09_split_part_spec : forall (w : Z) (gap n_s i : nat) (a r0 : limbs),
+  (0 < n_s)%nat -> (i < gap)%nat ->
+  (forall j, (j < length a)%nat -> length (lnth a j) = (gap * n_s)%nat) ->
+  vec_split_part w n_s i a r0
+  = build (length r0) (fun j => if Nat.ltb j (length a)
+       then subsample n_s (monomial_mul w (- Z.of_nat i) (lnth a j)) else zlimb n_s).
+Proof. exact split_part_spec. Qed.
+Print Assumptions C09_split_part_spec.
+
+Theorem C09_split_merge_roundtrip : forall (w : Z) (gap n_s : nat) (a : limbs) (rs : list limbs) (r0 : limbs),
+  (0 < gap)%nat -> (0 < n_s)%nat ->
+  (forall j, (j < length a)%nat -> length (lnth a j) = (gap * n_s)%nat) ->
+  (forall i, (i < gap)%nat -> (length a <= length (nth i rs []))%nat) ->
+  length r0 = length a ->
+  vec_merge_rings (gap * n_s)
+     (map (fun i => vec_split_part w n_s i a (nth i rs [])) (seq 0 gap)) r0 = a.
+Proof. exact split_merge_roundtrip. Qed.
+Print Assumptions C09_split_merge_roundtrip.
+
+Theorem C09_split_merge_general : forall (w : Z) (gap n_s : nat) (a : limbs) (rs : list limbs) (r0 : limbs),
+  (0 < gap)%nat -> (0 < n_s)%nat ->
+  (forall j, (j < length a)%nat -> length (lnth a j) = (gap * n_s)%nat) ->
+  (forall i, (i < gap)%nat -> (length a <= length (nth i rs []))%nat) ->
+  vec_merge_rings (gap * n_s)
+     (map (fun i => vec_split_part w n_s i a (nth i rs [])) (seq 0 gap)) r0
+  = build (length r0) (fun j => if Nat.ltb j (length a) then lnth a j else zlimb (gap * n_s)).
+Proof. exact split_merge_general. Qed.
+Print Assumptions C09_split_merge_general.
+
+Example C09_ex_split_merge :
+  let a := [[1; 2; 3; 4; 5; 6; 7; 8; 9; 10; 11; - 2 ^ 63]; [21; 22; 23; 24; 25; 26; 27; 28; 29; 30; 31; 32]] in
+  let junk := [[7; 7; 7; 7]; [7; 7; 7; 7]; [7; 7; 7; 7]] in
+  vec_merge_rings 12 (map (fun i => vec_split_part 64 4 i a junk) (seq 0 3)) [[]; []] = a
+  /\ vec_split_part 64 4 1 a junk = [[2; 5; 8; 11]; [22; 25; 28; 31]; [0; 0; 0; 0]].
+Proof. vm_compute. split; reflexivity. Qed.
+
+(* ---------- 8. the size rule ---------- *)
+Theorem C09_vec_add_size_rule : forall (w : Z) (n : nat) (a b r0 : limbs),
+  1 <= w -> limbs_wf w n a -> limbs_wf w n b ->
+  vec_add w n a b r0 = build (length r0) (fun j => vadd w (lz n a j) (lz n b j)).
+Proof. exact vec_add_size_rule. Qed.
+Print Assumptions C09_vec_add_size_rule.
+
+Theorem C09_vec_sub_size_rule : forall (w : Z) (n : nat) (a b r0 : limbs),
+  1 <= w -> limbs_wf w n a -> limbs_wf w n b ->
+  vec_sub w n a b r0 = build (length r0) (fun j => vsub w (lz n a j) (lz n b j)).
+Proof. exact vec_sub_size_rule. Qed.
+Print Assumptions C09_vec_sub_size_rule.
+
+Theorem C09_vec_add_indep : forall (w : Z) (n : nat) (a b r0 r1 : limbs),
+  length r0 = length r1 -> vec_add w n a b r0 = vec_add w n a b r1.
+Proof. exact vec_add_indep. Qed.
+Print Assumptions C09_vec_add_indep.
+
+Theorem C09_vec_sub_indep : forall (w : Z) (n : nat) (a b r0 r1 : limbs),
+  length r0 = length r1 -> vec_sub w n a b r0 = vec_sub w n a b r1.
+Proof. exact vec_sub_indep. Qed.
+Print Assumptions C09_vec_sub_indep.
+
+Theorem C09_vec_unary_size_rule : forall (n : nat) (f : list Z -> list Z) (a r0 : limbs),
+  f (zlimb n) = zlimb n ->
+  vec_unary n f a r0 = build (length r0) (fun j => f (lz n a j)).
+Proof. exact vec_unary_size_rule. Qed.
+Print Assumptions C09_vec_unary_size_rule.
+
+Theorem C09_vec_unary_indep : forall (n : nat) (f : list Z -> list Z) (a r0 r1 : limbs),
+  length r0 = length r1 -> vec_unary n f a r0 = vec_unary n f a r1.
+Proof. exact vec_unary_indep. Qed.
+Print Assumptions C09_vec_unary_indep.
+
+Theorem C09_vec_negate_size_rule : forall (w : Z) (n : nat) (a r0 : limbs),
+  1 <= w -> vec_unary n (vneg w) a r0 = build (length r0) (fun j => vneg w (lz n a j)).
+Proof. exact vec_negate_size_rule. Qed.
+Print Assumptions C09_vec_negate_size_rule.
+
+Theorem C09_vec_rotate_size_rule : forall (w : Z) (n : nat) (p : Z) (a r0 : limbs),
+  1 <= w -> vec_rotate w n p a r0 = build (length r0) (fun j => monomial_mul w p (lz n a j)).
+Proof. exact vec_rotate_size_rule. Qed.
+Print Assumptions C09_vec_rotate_size_rule.
+
+Theorem C09_vec_mul_xp_minus_one_size_rule : forall (w : Z) (n : nat) (p : Z) (a r0 : limbs),
+  1 <= w ->
+  vec_mul_xp_minus_one w n p a r0
+  = build (length r0) (fun j => vsub w (monomial_mul w p (lz n a j)) (lz n a j)).
+Proof. exact vec_mul_xp_minus_one_size_rule. Qed.
+Print Assumptions C09_vec_mul_xp_minus_one_size_rule.
+
+Theorem C09_vec_rotate_assign_spec : forall (w p : Z) (r0 : limbs),
+  vec_rotate_assign w p r0 = map (monomial_mul w p) r0.
+Proof. exact vec_rotate_assign_spec. Qed.
+Print Assumptions C09_vec_rotate_assign_spec.
+
+Theorem C09_vec_mul_xp_minus_one_assign_spec : forall (w p : Z) (r0 : limbs),
+  vec_mul_xp_minus_one_assign w p r0 = map (fun l => vsub w (monomial_mul w p l) l) r0.
+Proof. exact vec_mul_xp_minus_one_assign_spec. Qed.
+Print Assumptions C09_vec_mul_xp_minus_one_assign_spec.
+
+Theorem C09_vec_automorphism_size_rule : forall (w : Z) (n : nat) (m g : Z) (a r0 : limbs),
+  1 <= w -> 0 <= m -> Z.of_nat n = 2 ^ m -> Z.odd g = true -> limbs_len n a -> limbs_len n r0 ->
+  vec_automorphism w n g a r0 = build (length r0) (fun j => sigma w g (lz n a j)).
+Proof. exact vec_automorphism_size_rule. Qed.
+Print Assumptions C09_vec_automorphism_size_rule.
+
+Theorem C09_vec_automorphism_indep : forall (w : Z) (n : nat) (m g : Z) (a r0 r1 : limbs),
+  1 <= w -> 0 <= m -> Z.of_nat n = 2 ^ m -> Z.odd g = true ->
+  limbs_len n a -> limbs_len n r0 -> limbs_len n r1 -> length r0 = length r1 ->
+  vec_automorphism w n g a r0 = vec_automorphism w n g a r1.
+Proof. exact vec_automorphism_indep. Qed.
+Print Assumptions C09_vec_automorphism_indep.
+
+Theorem C09_vec_automorphism_assign_spec : forall (w : Z) (n : nat) (m g : Z) (t0 : list Z) (r0 : limbs),
+  0 <= m -> Z.of_nat n = 2 ^ m -> Z.odd g = true -> length t0 = n -> limbs_len n r0 ->
+  vec_automorphism_assign w g t0 r0 = map (sigma w g) r0.
+Proof. exact vec_automorphism_assign_spec. Qed.
+Print Assumptions C09_vec_automorphism_assign_spec.
+
+Theorem C09_vec_switch_ring_size_rule : forall (n_in n_out : nat) (a r0 : limbs),
+  (0 < n_in)%nat -> limbs_len n_in a ->
+  vec_switch_ring n_out a r0 = build (length r0) (fun j => switch_spec n_in n_out (lz n_in a j)).
+Proof. exact vec_switch_ring_size_rule. Qed.
+Print Assumptions C09_vec_switch_ring_size_rule.
+
+Theorem C09_vec_switch_ring_indep : forall (n_out : nat) (a r0 r1 : limbs),
+  length r0 = length r1 -> vec_switch_ring n_out a r0 = vec_switch_ring n_out a r1.
+Proof. exact vec_switch_ring_indep. Qed.
+Print Assumptions C09_vec_switch_ring_indep.
+
+Example C09_ex_vec_add :
+  vec_add 64 2 [[1; 2]; [3; 4]; [2 ^ 63 - 1; - 2 ^ 63]] [[10; 20]] [[7; 7]; [7; 7]; [7; 7]; [7; 7]]
+  = [[11; 22]; [3; 4]; [2 ^ 63 - 1; - 2 ^ 63]; [0; 0]].
+Proof.
+  rewrite C09_vec_add_size_rule; [vm_compute; reflexivity | lia | |];
+    apply limbs_wfb_sound; vm_compute; reflexivity.
+Qed.
+
+Example C09_ex_vec_sub_wraps :
+  vec_sub 64 2 [[1; 2]] [[10; 20]; [5; - 2 ^ 63]] [[]; []; []] = [[-9; -18]; [-5; - 2 ^ 63]; [0; 0]].
+Proof.
+  rewrite C09_vec_sub_size_rule; [vm_compute; reflexivity | lia | |];
+    apply limbs_wfb_sound; vm_compute; reflexivity.
+Qed.
+
+Example C09_ex_vec_automorphism :
+  vec_automorphism 64 4 (-3) [[1; 2; 3; 4]] [[9; 9; 9; 9]; [8; 8; 8; 8]]
+  = [sigma 64 (-3) [1; 2; 3; 4]; [0; 0; 0; 0]].
+Proof.
+  rewrite (C09_vec_automorphism_size_rule 64 4 2 (-3)); try reflexivity; try lia;
+    apply limbs_lenb_sound; vm_compute; reflexivity.
+Qed.
+
+Example C09_ex_vec_automorphism_assign :
+  vec_automorphism_assign 64 5 [9; 9; 9; 9] [[1; 2; 3; 4]; [5; 6; 7; - 2 ^ 63]]
+  = [sigma 64 5 [1; 2; 3; 4]; sigma 64 5 [5; 6; 7; - 2 ^ 63]].
+Proof.
+  rewrite (C09_vec_automorphism_assign_spec 64 4 2 5); try reflexivity; try lia.
+  apply limbs_lenb_sound; vm_compute; reflexivity.
+Qed.
